@@ -86,6 +86,7 @@ fn main() {
             "epoll" => s_epoll::run(&a[3]),
             "modes" | "modes09" | "modes10" => s_modes::run(&a[3]),
             "pool" => s_pool::run(&a[3]),
+            "poolsrv" => s_pool::run_srv(&a[3]),
             "printer" => s_printer::run(&a[3]),
             "conn" => s_conn::run(&a[3]),
             "readloop" => s_conn::run_readloop(&a[3]),
@@ -121,6 +122,7 @@ fn main() {
         "modes09" => s_modes::gen09(&ctx),
         "modes10" => s_modes::gen10(&ctx),
         "pool" => s_pool::gen(&ctx),
+        "poolsrv" => s_pool::gen_srv(&ctx),
         "printer" => s_printer::gen(&ctx),
         "readloop" => s_conn::gen_readloop(&ctx),
         "segpair" => s_connexp::gen_segpair(&ctx),
